@@ -39,6 +39,22 @@ pub fn vx_len_as_u32(n: usize) -> (r: u32)
     ensures r == n,
 { n.try_into().unwrap() }
 
+// the crate constants src/vm/mod.rs imports (in scope so that code falling back to a default reaches the contracts)
+//@extract file=src/constant.rs path="const BLOCK_GAS_LIMIT" kind=type
+//@end
+//@extract file=src/constant.rs path="const MAX_MEMORY_SIZE_WORDS" kind=type
+//@end
+//@extract file=src/constant.rs path="const DEFAULT_MEMORY_SINGLE_OPERATION_MAX_BYTES" kind=type
+//@end
+//@extract file=src/constant.rs path="const DEFAULT_ITERATIONS_PER_OPCODE" kind=type
+//@end
+//@extract file=src/constant.rs path="const DEFAULT_CONDITIONAL_JUMP_PER_TARGET_FORK_LIMIT" kind=type
+//@end
+//@extract file=src/constant.rs path="const DEFAULT_VALUE_SIZE_LIMIT" kind=type
+//@end
+//@extract file=src/constant.rs path="const DEFAULT_PERMISSIVE_ERRORS_ENABLED" kind=type
+//@end
+
 //@extract file=src/vm/mod.rs path="struct Config" kind=type
 //@end
 // ---- the configuration builders (C03: the limit a caller asks for is the limit that is set, and no other is disturbed) ----
@@ -217,11 +233,20 @@ vx_self.$1 = $2;
 //@end
 }
 
-// Config::default() is available to the code under contract but NOTHING is promised about its value (so that code which falls
-// back to default limits instead of the configured ones reaches the contracts and fails them)
-impl Default for Config {
-    #[verifier::external_body]
-    fn default() -> (r: Config) { unimplemented!() }
+// Config::default(): the crate's constants (real text). Code that falls back to default limits instead of the configured ones
+// still fails the contracts: the configured value is arbitrary, the default is one constant.
+//@extract file=src/vm/mod.rs path="impl Default for Config" kind=header
+//@end
+//@extract file=src/vm/mod.rs path="impl Default for Config|fn default" props=C03,C01 id=Config::default
+//@ret r
+//@spec
+        ensures
+            r.gas_limit == BLOCK_GAS_LIMIT && r.maximum_iterations_per_opcode == DEFAULT_ITERATIONS_PER_OPCODE
+            && r.maximum_forks_per_fork_target == DEFAULT_CONDITIONAL_JUMP_PER_TARGET_FORK_LIMIT && r.value_size_limit == DEFAULT_VALUE_SIZE_LIMIT
+            && r.single_memory_operation_size_limit == DEFAULT_MEMORY_SINGLE_OPERATION_MAX_BYTES
+            && r.permissive_errors == DEFAULT_PERMISSIVE_ERRORS_ENABLED,       //@ob C03.vm_state.config.default.is_the_documented_constants
+            r.maximum_iterations_per_opcode >= 1 && r.maximum_forks_per_fork_target >= 1 && r.gas_limit >= 1 && r.value_size_limit >= 1,   //@ob C03.vm_state.config.default.limits_are_positive
+//@end
 }
 // A-DERIVE: Config::clone is structural
 impl Clone for Config {
